@@ -173,7 +173,7 @@ func c04Check(c C04Case, rec *evid.Rec) error {
 	want := v.SortKeys(val.LessBytewise)
 	for _, target := range []nodes.Impl{nodes.BasicAny, impl} {
 		nb := nodes.ProtoFor(target, v.K).NewBuilder()
-		if err := evid.Guard("dagjson.Decode", func() error { return dagjson.Decode(nb, bytes.NewReader(enc)) }); err != nil {
+		if err := evid.Guard("dagjson.Decode", func() error { return dagjson.Decode(nb, c03Reader(enc)) }); err != nil {
 			return fmt.Errorf("dagjson.Decode of its own output %s failed: %w", clipText(enc), err)
 		}
 		got, err := nodes.Full.Read(nb.Build())
@@ -200,7 +200,7 @@ func c04Check(c C04Case, rec *evid.Rec) error {
 			return fmt.Errorf("json.Encode output is not valid JSON: %s", clipText(jb.Bytes()))
 		}
 		nb := nodes.ProtoFor(nodes.BasicAny, v.K).NewBuilder()
-		if err := evid.Guard("json.Decode", func() error { return ipldjson.Decode(nb, bytes.NewReader(jb.Bytes())) }); err != nil {
+		if err := evid.Guard("json.Decode", func() error { return ipldjson.Decode(nb, c03Reader(jb.Bytes())) }); err != nil {
 			return fmt.Errorf("json.Decode of its own output %s failed: %w", clipText(jb.Bytes()), err)
 		}
 		got, err := nodes.Full.Read(nb.Build())
